@@ -42,6 +42,14 @@ CHECKS = {
             "init='results' clause operationalised: previous converged default-start result at most 2 switching/small-setpoint edits old; nets <= 60 buses; tolerance 1e-6 (1e-5/1e-4 for different start points). " + COMMON_NOTE,
             "deterministic simulation: seeded operation/fault histories, replica (scrubbed-copy) oracle, crash-point injection into earlier calculations",
             "DESIGN.md section 4, C09"),
+    "C30": ("Seeded search over interleavings of several Diagnostic clients (instantiation, registration, diagnose_network with options, report) in one process; every call is checked against a per-instance model, a snapshot of the diagnosed net, and - for a sampled subset - the same call as the only call of a fresh forked process.",
+            "The fresh-process oracle is sampled (about 1 in 3 calls, at least one per episode) because fork is expensive under load in this VM; known module-level state is reset at episode start. " + COMMON_NOTE,
+            "deterministic simulation: seeded client interleaving over shared process state, reference model + fresh-process isolation oracle",
+            "DESIGN.md section 4, C30"),
+    "C34": ("Seeded search over histories of stored/overwritten user options, explicitly passed runpp arguments (incl. default-valued and positional ones), failing runs and save/load, compared key by key with a precedence model.",
+            "Only option keys that are plain copies of the argument are compared. One open known finding (passed value equal to the signature default). " + COMMON_NOTE,
+            "deterministic simulation: seeded option/run/fault histories against an executable precedence model",
+            "DESIGN.md section 4, C34"),
 }
 
 
